@@ -16,11 +16,20 @@ LT = 'skyllh/core/livetime.py'
 I3 = 'skyllh/i3/livetime.py'
 DS = 'skyllh/core/dataset.py'
 
-# recorded values (fallback when the extraction fails)
+# recorded values (fallback whenever the source has a shape the extraction does not fully recognise)
 RECORDED = dict(reqNdim=2, reqCols=2, endRight=True, startRight=False, tMinNone=True, tMaxNone=True,
-                integRaises=['TypeError', 'TypeError', 'ValueError', 'ValueError', 'ValueError'],
-                i3Raises=['TypeError', 'ValueError'], subsetRaises=['TypeError', 'TypeError'],
-                subsetOps=['GtE', 'Lt', 'GtE', 'Lt'], emptyWindowOp='LtE')
+                subsetStartOp='GtE', subsetStopOp='Lt', emptyWindowOp='LtE')
+
+# What is extracted are *semantic facts* whose change is a behaviour change: the two shape literals of the integrity check, the
+# `right=` flag of the two numpy.digitize calls, the comparison of the event times against the two window ends (normalised to
+# "time <op> bound", whatever the syntax: np.logical_and / & / helper function / either operand order / chained comparison), the
+# comparison of the empty-window early return (normalised to "t_end <op> t_start") and the None defaults of draw_ontimes.
+# Every extractor returns a value only for a shape it recognises completely and unambiguously; anything else raises LookupError and
+# the recorded value is used (with a note).  The order of the raised exception classes is evidence only (ctx.extra), no obligation:
+# a rewrite may restructure raising code without changing behaviour, and a behaviour-changing reorder is caught by the
+# correspondence kinds with two simultaneous defects (assertint / construct / i3ds / subsetfull).
+
+_FLIP = {'Lt': 'Gt', 'Gt': 'Lt', 'LtE': 'GtE', 'GtE': 'LtE', 'Eq': 'Eq', 'NotEq': 'NotEq'}
 
 
 def _func(relpath, cls, name):
@@ -34,7 +43,7 @@ def _func(relpath, cls, name):
 
 
 def _raises(f):
-    """exception class names of the `raise X(...)` statements of a function, in source order"""
+    """exception class names of the `raise X(...)` statements of a function, in source order (evidence only)"""
     out = []
     for node in ast.walk(f):
         if isinstance(node, ast.Raise) and isinstance(node.exc, ast.Call) and isinstance(node.exc.func, ast.Name):
@@ -42,116 +51,183 @@ def _raises(f):
     return [n for _, n in sorted(out)]
 
 
-def _compare_literal(f, attr_path):
-    """the int literal `arr.<attr_path> != <literal>` is compared with, e.g. ('ndim',) or ('shape', 1)"""
+def _binary_compares(f):
+    """(left, op name, right) of every link of every comparison chain in f (nested functions and lambdas included)"""
+    out = []
     for node in ast.walk(f):
-        if isinstance(node, ast.Compare) and len(node.ops) == 1 and isinstance(node.ops[0], ast.NotEq):
-            left = node.left
-            if len(attr_path) == 2 and isinstance(left, ast.Subscript):
-                idx = left.slice
-                if isinstance(idx, ast.Constant) and idx.value == attr_path[1]:
-                    left = left.value
-                else:
-                    continue
-            elif len(attr_path) == 2:
-                continue
-            if isinstance(left, ast.Attribute) and left.attr == attr_path[0] and isinstance(node.comparators[0], ast.Constant):
-                v = node.comparators[0].value
-                if isinstance(v, int) and not isinstance(v, bool) and v >= 0:
-                    return v
-    raise LookupError('comparison of %r not found' % (attr_path,))
+        if isinstance(node, ast.Compare):
+            terms = [node.left] + list(node.comparators)
+            for lhs, op, rhs in zip(terms, node.ops, terms[1:]):
+                out.append((lhs, type(op).__name__, rhs))
+    return out
 
 
-def extract_all():
-    from harness import extract
-    v = {}
-    f = _func(LT, 'Livetime', 'assert_mjd_intervals_integrity')
-    v['reqNdim'] = _compare_literal(f, ('ndim',))
-    v['reqCols'] = _compare_literal(f, ('shape', 1))
-    v['integRaises'] = _raises(f)
-    g = _func(LT, 'Livetime', 'get_uptime_intervals_between')
-    rights = []
-    for node in ast.walk(g):
+def _is_attr(node, attr_path):
+    """node is `<x>.ndim` for ('ndim',) or `<x>.shape[1]` for ('shape', 1)"""
+    if len(attr_path) == 2:
+        if not (isinstance(node, ast.Subscript) and isinstance(node.slice, ast.Constant) and node.slice.value == attr_path[1]):
+            return False
+        node = node.value
+    return isinstance(node, ast.Attribute) and node.attr == attr_path[0]
+
+
+def _shape_literal(f, attr_path):
+    """the unique natural-number literal that `<arr>.<attr_path>` is compared with by == or != (either operand order)"""
+    vals = set()
+    for lhs, op, rhs in _binary_compares(f):
+        for x, y in ((lhs, rhs), (rhs, lhs)):
+            if _is_attr(x, attr_path):
+                if op not in ('Eq', 'NotEq') or not (isinstance(y, ast.Constant) and isinstance(y.value, int) and not isinstance(y.value, bool)
+                                                      and y.value >= 0):
+                    raise LookupError('unrecognised comparison of %r' % (attr_path,))
+                vals.add(y.value)
+    if len(vals) != 1:
+        raise LookupError('%d distinct literals compared with %r' % (len(vals), attr_path))
+    return vals.pop()
+
+
+def _digitize_right(f):
+    """`right` flags of the direct numpy.digitize calls in f; a flag that is not a literal is not recognised"""
+    out = []
+    for node in ast.walk(f):
         if isinstance(node, ast.Call) and isinstance(node.func, ast.Attribute) and node.func.attr == 'digitize':
             kw = {k.arg: k.value for k in node.keywords}
-            r = kw.get('right')
-            rights.append((node.lineno, bool(r.value) if isinstance(r, ast.Constant) else False))
-    if len(rights) != 1:
-        raise LookupError('expected one direct numpy.digitize call in get_uptime_intervals_between, found %d' % len(rights))
-    v['endRight'] = rights[0][1]
-    h = _func(LT, 'Livetime', '_get_onoff_interval_indices')
-    hs = []
-    for node in ast.walk(h):
-        if isinstance(node, ast.Call) and isinstance(node.func, ast.Attribute) and node.func.attr == 'digitize':
-            kw = {k.arg: k.value for k in node.keywords}
-            r = kw.get('right')
-            hs.append(bool(r.value) if isinstance(r, ast.Constant) else False)
-    if len(hs) != 1:
-        raise LookupError('expected one numpy.digitize call in _get_onoff_interval_indices')
-    v['startRight'] = hs[0]
-    first_if = [n for n in g.body if isinstance(n, ast.If)][0]
-    v['emptyWindowOp'] = type(first_if.test.ops[0]).__name__
-    d = _func(LT, 'Livetime', 'draw_ontimes')
+            if None in kw or len(node.args) > 3 or (len(node.args) == 3 and 'right' in kw):
+                raise LookupError('unrecognised digitize call')
+            r = kw.get('right', node.args[2] if len(node.args) == 3 else None)
+            if r is None:
+                out.append(False)
+            elif isinstance(r, ast.Constant) and isinstance(r.value, bool):
+                out.append(r.value)
+            else:
+                raise LookupError('digitize right= is not a literal')
+    return out
+
+
+def _bound_op(f, bound):
+    """the unique operator <op> of "time <op> bound" over all comparisons in f that have the plain name `bound` as one operand"""
+    ops = set()
+    for lhs, op, rhs in _binary_compares(f):
+        l_is = isinstance(lhs, ast.Name) and lhs.id == bound
+        r_is = isinstance(rhs, ast.Name) and rhs.id == bound
+        if l_is and r_is:
+            raise LookupError('bound compared with itself')
+        if r_is:
+            ops.add(op)
+        elif l_is:
+            if op not in _FLIP:
+                raise LookupError('unrecognised operator')
+            ops.add(_FLIP[op])
+    if len(ops) != 1 or not ops <= set(_FLIP):
+        raise LookupError('%d distinct comparisons against %s' % (len(ops), bound))
+    return ops.pop()
+
+
+def _empty_window_op(g):
+    """<op> of the early return `if t_end <op> t_start` (first top-level `if`; either operand order)"""
+    ifs = [n for n in g.body if isinstance(n, ast.If)]
+    if not ifs or not isinstance(ifs[0].test, ast.Compare) or len(ifs[0].test.ops) != 1:
+        raise LookupError('first if is not a single comparison')
+    t = ifs[0].test
+    lhs, rhs, op = t.left, t.comparators[0], type(t.ops[0]).__name__
+    names = [x.id if isinstance(x, ast.Name) else None for x in (lhs, rhs)]
+    if op not in _FLIP or not (len(ifs[0].body) == 1 and isinstance(ifs[0].body[0], ast.Return)):
+        raise LookupError('not an early return on an order comparison')
+    if names == ['t_end', 't_start']:
+        return op
+    if names == ['t_start', 't_end']:
+        return _FLIP[op]
+    raise LookupError('first if does not compare t_end with t_start')
+
+
+def _default_is_none(d, name):
     a = d.args
-    defaults = dict(zip([x.arg for x in a.args][len(a.args) - len(a.defaults):], a.defaults))
-    v['tMinNone'] = isinstance(defaults['t_min'], ast.Constant) and defaults['t_min'].value is None
-    v['tMaxNone'] = isinstance(defaults['t_max'], ast.Constant) and defaults['t_max'].value is None
-    v['i3Raises'] = _raises(_func(I3, 'I3Livetime', 'from_I3Dataset'))
-    s = _func(DS, None, 'get_data_subset')
-    v['subsetRaises'] = _raises(s)
-    ops = []
-    for node in ast.walk(s):
-        if isinstance(node, ast.Compare) and len(node.ops) == 1 and isinstance(node.left, ast.Subscript):
-            ops.append((node.lineno, node.col_offset, type(node.ops[0]).__name__))
-    v['subsetOps'] = [o for _, _, o in sorted(ops)]
-    return v
+    pos = a.posonlyargs + a.args
+    defaults = dict(zip([x.arg for x in pos][len(pos) - len(a.defaults):], a.defaults))
+    defaults.update({x.arg: dv for x, dv in zip(a.kwonlyargs, a.kw_defaults) if dv is not None})
+    if name not in defaults or not isinstance(defaults[name], ast.Constant):
+        raise LookupError('no literal default for %s' % name)
+    return defaults[name].value is None
+
+
+def _only(xs, what):
+    if len(xs) != 1:
+        raise LookupError('expected one numpy.digitize call in %s, found %d' % (what, len(xs)))
+    return xs[0]
+
+
+EXTRACTORS = {
+    'reqNdim': lambda: _shape_literal(_func(LT, 'Livetime', 'assert_mjd_intervals_integrity'), ('ndim',)),
+    'reqCols': lambda: _shape_literal(_func(LT, 'Livetime', 'assert_mjd_intervals_integrity'), ('shape', 1)),
+    'endRight': lambda: _only(_digitize_right(_func(LT, 'Livetime', 'get_uptime_intervals_between')), 'get_uptime_intervals_between'),
+    'startRight': lambda: _only(_digitize_right(_func(LT, 'Livetime', '_get_onoff_interval_indices')), '_get_onoff_interval_indices'),
+    'emptyWindowOp': lambda: _empty_window_op(_func(LT, 'Livetime', 'get_uptime_intervals_between')),
+    'tMinNone': lambda: _default_is_none(_func(LT, 'Livetime', 'draw_ontimes'), 't_min'),
+    'tMaxNone': lambda: _default_is_none(_func(LT, 'Livetime', 'draw_ontimes'), 't_max'),
+    'subsetStartOp': lambda: _bound_op(_func(DS, None, 'get_data_subset'), 't_start'),
+    'subsetStopOp': lambda: _bound_op(_func(DS, None, 'get_data_subset'), 't_stop'),
+}
+
+
+def raise_orders():
+    """evidence only: exception classes raised by the three guarded functions, in source order"""
+    out = {}
+    for key, (rel, cls, fn) in {'assert_mjd_intervals_integrity': (LT, 'Livetime', 'assert_mjd_intervals_integrity'),
+                                'from_I3Dataset': (I3, 'I3Livetime', 'from_I3Dataset'), 'get_data_subset': (DS, None, 'get_data_subset')}.items():
+        try:
+            out[key] = _raises(_func(rel, cls, fn))
+        except Exception as e:  # noqa
+            out[key] = 'not extracted: %s' % (e,)
+    return out
 
 
 _VALUES = {}
 
 
 def values(ctx=None):
-    """the extracted constants (per process; recorded values on failure, noted in the evidence)"""
+    """the extracted facts (per process); each one falls back to its recorded value on its own, noted in the evidence"""
     if 'v' not in _VALUES:
-        try:
-            _VALUES['v'] = extract_all()
-        except Exception as e:  # noqa
-            if ctx is not None:
-                ctx.note('C14: extraction of the livetime constants / branch structure failed (%s); using the recorded values' % (e,))
-                ctx.proof['generated_fallbacks'].append('livetime-structure')
-            _VALUES['v'] = dict(RECORDED)
+        v, failed = {}, []
+        for name, fn in EXTRACTORS.items():
+            try:
+                v[name] = fn()
+                if type(v[name]) is not type(RECORDED[name]):
+                    raise LookupError('unexpected type %r' % (v[name],))
+            except Exception as e:  # noqa
+                v[name] = RECORDED[name]
+                failed.append((name, e))
+        _VALUES['v'], _VALUES['failed'] = v, failed
+    if ctx is not None and not _VALUES.get('noted'):
+        _VALUES['noted'] = True
+        for name, e in _VALUES['failed']:
+            ctx.note('C14: the source shape around %s is not recognised by the extraction (%s); using the recorded value %r' % (name, e, RECORDED[name]))
+            ctx.proof['generated_fallbacks'].append(name)
     return _VALUES['v']
 
 
 def generated_text(ctx):
-    from harness import extract
     v = values(ctx)
     b = lambda x: 'true' if x else 'false'  # noqa
-    return ('/- generated by harness/props/c14.py (harness/c14_r7_fixtures.py) from skyllh/core/livetime.py, skyllh/i3/livetime.py and\n'
-            '   skyllh/core/dataset.py of the current source — do not edit -/\n'
+    return ('/- generated by harness/props/c14.py (harness/c14_r7_fixtures.py) from skyllh/core/livetime.py and skyllh/core/dataset.py of the\n'
+            '   current source — do not edit.  Semantic facts only; unrecognised source shapes fall back to the recorded values. -/\n'
             'namespace Gen.C14\n'
             '/-- `arr.ndim != <reqNdim>` in assert_mjd_intervals_integrity -/\n'
             'def reqNdim : Nat := %d\n'
             '/-- `arr.shape[1] != <reqCols>` -/\n'
             'def reqCols : Nat := %d\n'
-            '/-- exception classes raised by assert_mjd_intervals_integrity, in source order -/\n'
-            'def integRaises : List String := %s\n'
             '/-- `right=` of the numpy.digitize call locating t_start (via _get_onoff_interval_indices) / t_end -/\n'
             'def startRight : Bool := %s\n'
             'def endRight : Bool := %s\n'
-            '/-- comparison operator of the early return `t_end <op> t_start` -/\n'
+            '/-- the early return of get_uptime_intervals_between, normalised to `t_end <op> t_start` -/\n'
             'def emptyWindowOp : String := "%s"\n'
             '/-- defaults of draw_ontimes(t_min, t_max) are None -/\n'
             'def tMinNone : Bool := %s\n'
             'def tMaxNone : Bool := %s\n'
-            '/-- exception classes raised by I3Livetime.from_I3Dataset / get_data_subset, in source order -/\n'
-            'def i3Raises : List String := %s\n'
-            'def subsetRaises : List String := %s\n'
-            '/-- comparison operators of the exp / mc event masks of get_data_subset, in source order -/\n'
-            'def subsetOps : List String := %s\n'
-            'end Gen.C14\n' % (v['reqNdim'], v['reqCols'], extract.lean_str_list(v['integRaises']), b(v['startRight']), b(v['endRight']),
-                               v['emptyWindowOp'], b(v['tMinNone']), b(v['tMaxNone']), extract.lean_str_list(v['i3Raises']),
-                               extract.lean_str_list(v['subsetRaises']), extract.lean_str_list(v['subsetOps'])))
+            '/-- the event masks of get_data_subset, normalised to `time <op> t_start` / `time <op> t_stop` -/\n'
+            'def subsetStartOp : String := "%s"\n'
+            'def subsetStopOp : String := "%s"\n'
+            'end Gen.C14\n' % (v['reqNdim'], v['reqCols'], b(v['startRight']), b(v['endRight']), v['emptyWindowOp'], b(v['tMinNone']),
+                               b(v['tMaxNone']), v['subsetStartOp'], v['subsetStopOp']))
 
 
 # ------------------------------------------------------------------------------------------
